@@ -629,6 +629,16 @@ static void delayed_free_all(void)
 	dl_n = 0;
 }
 
+static int fns_log_at_send;      /* UDP queries are logged when the resolver sends them (sendto is wrapped), not when the nameserver reads them */
+static struct { char n[300]; int t; int cnt; } fns_sent[256];
+static int fns_nsent;
+static int fns_count_sent(const char *name, int t)
+{
+	int i;
+	for (i = 0; i < fns_nsent; i++) if (fns_sent[i].t == t && !strcmp(fns_sent[i].n, name)) return ++fns_sent[i].cnt;
+	if (fns_nsent < 256) { snprintf(fns_sent[fns_nsent].n, sizeof fns_sent[0].n, "%s", name); fns_sent[fns_nsent].t = t; fns_sent[fns_nsent].cnt = 1; fns_nsent++; }
+	return 1;
+}
 static int fns_count(const char *name, int t)
 {
 	int i;
@@ -662,8 +672,9 @@ static int fns_handle(int srv, const char *tr, const unsigned char *b, int n, un
 	t = b[e] * 256 + b[e + 1];
 	k = fns_count(nm, t);
 	r = fns_rule(nm, t, k, srv, tr);
-	ELOG("\"e\":\"q\",\"ns\":%d,\"tr\":\"%s\",\"id\":%d,\"n\":\"%s\",\"t\":%d,\"k\":%d,\"fate\":\"%s\"", srv + 1, tr, b[0] * 256 + b[1], nm, t, k,
-	    r ? j_str(r, "fate", "?") : "norule");
+	if (!(fns_log_at_send && !strcmp(tr, "udp")))
+		ELOG("\"e\":\"q\",\"ns\":%d,\"tr\":\"%s\",\"id\":%d,\"n\":\"%s\",\"t\":%d,\"k\":%d,\"fate\":\"%s\"", srv + 1, tr, b[0] * 256 + b[1], nm, t, k,
+		    r ? j_str(r, "fate", "?") : "norule");
 	if (r) {
 		const char *hex = j_str(r, "reply", "");
 		if (hex[0]) {
@@ -678,6 +689,31 @@ static int fns_handle(int srv, const char *tr, const unsigned char *b, int n, un
 	}
 	fns_nq++;
 	return rl;
+}
+ssize_t __real_sendto(int fd, const void *buf, size_t n, int flags, const struct sockaddr *to, socklen_t tl);
+ssize_t __wrap_sendto(int fd, const void *buf, size_t n, int flags, const struct sockaddr *to, socklen_t tl)
+{
+	if (fns_log_at_send && elogf && to && to->sa_family == AF_INET && n >= 12) {
+		const struct sockaddr_in *sin = (const struct sockaddr_in *)to;
+		int i;
+		for (i = 0; i < fns_n; i++) {
+			if (sin->sin_port == fns[i].addr.sin_port && fd != fns[i].ufd) {
+				const unsigned char *b = buf;
+				char nm[512]; int e = q_name(b, (int)n, nm, sizeof nm);
+				if (e > 0 && e + 4 <= (int)n) {
+					int t = b[e] * 256 + b[e + 1], k;
+					jval *r;
+					lower(nm);
+					k = fns_count_sent(nm, t);
+					r = fns_rule(nm, t, k, i, "udp");
+					ELOG("\"e\":\"q\",\"ns\":%d,\"tr\":\"udp\",\"id\":%d,\"n\":\"%s\",\"t\":%d,\"k\":%d,\"fate\":\"%s\"", i + 1, b[0] * 256 + b[1], nm, t, k,
+					    r ? j_str(r, "fate", "?") : "norule");
+				}
+				break;
+			}
+		}
+	}
+	return __real_sendto(fd, buf, n, flags, to, tl);
 }
 static void fns_udp_cb(evutil_socket_t fd, short what, void *arg)
 {
@@ -740,7 +776,7 @@ static void fns_accept_cb(evutil_socket_t fd, short what, void *arg)
 static int fns_open(int n)
 {
 	int i, tries;
-	fns_n = 0; fns_nseen = 0; fns_nq = 0; fns_on_query = NULL;
+	fns_n = 0; fns_nseen = 0; fns_nq = 0; fns_on_query = NULL; fns_nsent = 0; fns_log_at_send = 0;
 	for (i = 0; i < n; i++) {
 		for (tries = 0; tries < 50; tries++) {
 			socklen_t sl = sizeof fns[i].addr;
@@ -846,6 +882,109 @@ static void mode_gai(jval *sc)
 	fns_close();
 }
 
+
+/* ---------------------------------------------------------------- mode c34 (request life-cycle under scripted faults) */
+#define MAXREQ 16
+static struct { struct evdns_request *h; int made, done; } c34r[MAXREQ];
+static jval *c34_sc;
+static int c34_freed;
+static void c34_run_hooks(const char *on, int key);
+static void c34_cb(int err, char type, int count, int ttl, void *addrs, void *arg)
+{
+	int r = (int)(intptr_t)arg;
+	c34r[r].done++;
+	ELOG("\"e\":\"cb\",\"r\":%d,\"err\":%d,\"count\":%d", r, err, count);
+	c34_run_hooks("cb", r);
+}
+static void c34_make(int r)
+{
+	jval *reqs = j_get(c34_sc, "reqs"), *q;
+	static unsigned char nm[512]; size_t n;
+	if (!reqs || r < 1 || (size_t)r > reqs->n || c34r[r].made || c34_freed) return;
+	q = reqs->items[r - 1];
+	n = unhex(j_str(q, "name_hex", ""), nm, sizeof nm - 1); nm[n] = 0;
+	c34r[r].made = 1;
+	ELOG("\"e\":\"make\",\"r\":%d", r);
+	c34r[r].h = evdns_base_resolve_ipv4(dns, (char *)nm, (int)j_int(q, "flags", 0), c34_cb, (void *)(intptr_t)r);
+	if (!c34r[r].h) { ELOG("\"e\":\"makefail\",\"r\":%d", r); c34r[r].done = 1; }
+}
+static void c34_do(jval *acts)
+{
+	size_t k;
+	for (k = 0; acts && k < acts->n; k++) {
+		jval *a = acts->items[k];
+		const char *what = j_str(a, "a", "");
+		int r = (int)j_int(a, "req", 0);
+		if (!strcmp(what, "make")) c34_make(r);
+		else if (!strcmp(what, "cancel")) {
+			if (r >= 1 && r < MAXREQ && c34r[r].made && !c34r[r].done && c34r[r].h && !c34_freed) {
+				ELOG("\"e\":\"cancel\",\"r\":%d", r);
+				evdns_cancel_request(dns, c34r[r].h);
+			}
+		} else if (!strcmp(what, "free")) {
+			if (!c34_freed) {
+				int f = (int)j_int(a, "fail", 0);
+				c34_freed = 1;
+				ELOG("\"e\":\"free\",\"fail\":%d", f);
+				evdns_base_free(dns, f); dns = NULL;
+			}
+		}
+	}
+}
+static void c34_run_hooks(const char *on, int key)
+{
+	jval *hooks = j_get(c34_sc, "hooks");
+	size_t k;
+	for (k = 0; hooks && k < hooks->n; k++) {
+		jval *h = hooks->items[k];
+		if (strcmp(j_str(h, "on", ""), on) || j_int(h, "key", 0) != key || j_int(h, "fired", 0)) continue;
+		{ jval *f = j_get(h, "fired"); if (f) f->i = 1; }
+		c34_do(j_get(h, "do"));
+	}
+}
+static void c34_on_query(int nq) { c34_run_hooks("q", nq); }
+static void mode_c34(jval *sc)
+{
+	jval *opts = j_get(sc, "opts");
+	size_t k;
+	int i;
+	c34_sc = sc; c34_freed = 0; memset(c34r, 0, sizeof c34r);
+	fns_open((int)j_int(sc, "nns", 2));
+	fns_rules = j_get(sc, "rules");
+	elog_open();
+	dns = evdns_base_new(base, 0);
+	if (j_get(sc, "conf")) {
+		char path[512]; jval *t = j_get(sc, "conf");
+		snprintf(path, sizeof path, "%s/dnsdrv_%d.c34conf", j_str(sc, "dir", "/verif/out/tmp"), (int)getpid());
+		write_file(path, t->str, t->slen);
+		evdns_base_resolv_conf_parse(dns, DNS_OPTION_SEARCH | DNS_OPTION_MISC, path);
+		unlink(path);
+	}
+	for (k = 0; opts && k < opts->n; k++) evdns_base_set_option(dns, opts->items[k]->items[0]->str, opts->items[k]->items[1]->str);
+	for (i = 0; i < fns_n; i++) evdns_base_nameserver_sockaddr_add(dns, (struct sockaddr *)&fns[i].addr, sizeof fns[i].addr, 0);
+	fns_on_query = c34_on_query;
+	fns_log_at_send = 1;
+	c34_run_hooks("start", 0);
+	{ /* virtual watchdog: run until nothing can happen any more (or a generous number of timer expiries) */
+		int it, blocked = 0, cap = (int)j_int(sc, "iterations", 300);
+		for (it = 0; it < cap; it++) {
+			loop_blocked = 0;
+			event_base_loop(base, EVLOOP_ONCE);
+			if (loop_blocked) { struct timespec ts = {0, 400000}; if (++blocked > 2) break; nanosleep(&ts, NULL); } else blocked = 0;
+		}
+	}
+	ELOG("\"e\":\"quiesce\"");
+	fns_on_query = NULL; fns_log_at_send = 0;
+	if (!c34_freed) { evdns_base_free(dns, 0); dns = NULL; }
+	pump_now(1);
+	fclose(elogf);
+	fprintf(out, "{\"log\":[%s],\"done\":[", elog ? elog : "");
+	for (i = 1; i < MAXREQ; i++) fprintf(out, "%s%d", i > 1 ? "," : "", c34r[i].made ? c34r[i].done : -1);
+	fprintf(out, "]");
+	free(elog); elog = NULL;
+	fns_close();
+}
+
 /* ---------------------------------------------------------------- main */
 static void run_scenario(jval *sc)
 {
@@ -860,6 +999,7 @@ static void run_scenario(jval *sc)
 	else if (!strcmp(mode, "query")) mode_client(sc, 0);
 	else if (!strcmp(mode, "reply")) mode_client(sc, 1);
 	else if (!strcmp(mode, "gai")) mode_gai(sc);
+	else if (!strcmp(mode, "c34")) mode_c34(sc);
 	else fprintf(out, "{\"err\":\"unknown mode\"");
 	ns_close();
 	pump_now(0);
